@@ -410,12 +410,26 @@ impl OpCode {
 
 /// Computes the weight of a bunch of opcodes.
 pub fn opcodes_weight(opcodes: &[OpCode]) -> u128 {
-    let (mut sum, mut rest) = opcodes_car_weight(opcodes);
+    opcodes_weight_memo(opcodes, &mut std::collections::HashMap::new())
+}
+
+/// Weights of the loop bodies already weighed, keyed by (address of the first opcode, length).
+/// A loop body is weighed once for the loop and once more as part of what follows the loop instruction,
+/// so without remembering it the work doubles with every level of nesting.
+type WeightMemo = std::collections::HashMap<(usize, usize), u128>;
+
+fn opcodes_weight_memo(opcodes: &[OpCode], memo: &mut WeightMemo) -> u128 {
+    let key = (opcodes.as_ptr() as usize, opcodes.len());
+    if let Some(known) = memo.get(&key) {
+        return *known;
+    }
+    let (mut sum, mut rest) = opcodes_car_weight(opcodes, memo);
     while !rest.is_empty() {
-        let (delta_sum, new_rest) = opcodes_car_weight(rest);
+        let (delta_sum, new_rest) = opcodes_car_weight(rest, memo);
         rest = new_rest;
         sum = sum.saturating_add(delta_sum);
     }
+    memo.insert(key, sum);
     sum
 }
 
@@ -424,7 +438,7 @@ pub fn opcodes_weight(opcodes: &[OpCode]) -> u128 {
 pub static VERIF_WEIGH_WORK: std::sync::atomic::AtomicU64 = std::sync::atomic::AtomicU64::new(0);
 
 /// Compute the weight of the first bit of opcodes, returning a weight and what remains.
-fn opcodes_car_weight(opcodes: &[OpCode]) -> (u128, &[OpCode]) {
+fn opcodes_car_weight<'a>(opcodes: &'a [OpCode], memo: &mut WeightMemo) -> (u128, &'a [OpCode]) {
     #[cfg(melstf_verif)]
     VERIF_WEIGH_WORK.fetch_add(1, std::sync::atomic::Ordering::Relaxed);
     if opcodes.is_empty() {
@@ -437,7 +451,7 @@ fn opcodes_car_weight(opcodes: &[OpCode]) -> (u128, &[OpCode]) {
         OpCode::Noop => (1, rest),
         // handle loops specially
         OpCode::Loop(iters, body_len) => {
-            let sum = opcodes_weight(&rest[..(*body_len as usize).min(rest.len())]);
+            let sum = opcodes_weight_memo(&rest[..(*body_len as usize).min(rest.len())], memo);
 
             (sum.saturating_mul(*iters as u128).saturating_add(1), rest)
         }
